@@ -16,6 +16,7 @@ import (
 
 	edsv1 "github.com/DataDog/extendeddaemonset/api/v1alpha1"
 	"verifharness/evid"
+	"verifharness/gen"
 	"verifharness/mon"
 	"verifharness/oracle"
 	"verifharness/sim"
@@ -26,6 +27,7 @@ type c18Setting struct {
 	CreatedAt int    // seconds offset; equal values = creation-time tie
 	Selector  string // "zone=a", "tier=a", "zone in (a,b)", "zone exists", "all", "bad"
 	Ref       string // "", "foo", "bar", "nil"
+	Res       string // which resources it demands: "" or "requests" (cpu request), "limits" (memory limit), "both"; values differ per setting
 }
 
 type c18Case struct {
@@ -40,7 +42,7 @@ type c18Case struct {
 func (k c18Case) String() string {
 	var s []string
 	for _, x := range k.Settings {
-		s = append(s, fmt.Sprintf("%s/%s{t=%d sel=%q ref=%q}", x.NS, x.Name, x.CreatedAt, x.Selector, x.Ref))
+		s = append(s, fmt.Sprintf("%s/%s{t=%d sel=%q ref=%q res=%s}", x.NS, x.Name, x.CreatedAt, x.Selector, x.Ref, x.Res))
 	}
 	return fmt.Sprintf("settings=[%s] nodes=%v order=%v listReversed=%v removedAfterwards=%v notYetReconciled=%v", strings.Join(s, " "), k.Nodes, k.Order, k.ListRev, k.Remove, k.Pending)
 }
@@ -84,6 +86,7 @@ func c18Draw(rt *rapid.T) c18Case {
 			CreatedAt: rapid.IntRange(0, 2).Draw(rt, fmt.Sprintf("s%d-created", i)),
 			Selector:  rapid.SampledFrom(c18Selectors).Draw(rt, fmt.Sprintf("s%d-sel", i)),
 			Ref:       rapid.SampledFrom([]string{"foo", "foo", "foo", "bar", "", "nil"}).Draw(rt, fmt.Sprintf("s%d-ref", i)),
+			Res:       rapid.SampledFrom([]string{"requests", "requests", "limits", "both"}).Draw(rt, fmt.Sprintf("s%d-res", i)),
 		})
 	}
 	nn := rapid.IntRange(0, 4).Draw(rt, "nNodes")
@@ -131,9 +134,16 @@ func runC18(k c18Case) (vs []mon.V, err error) {
 		c.AddNode(fmt.Sprintf("n%d", i), l, nil)
 	}
 	base := c.Now()
-	for _, s := range k.Settings {
+	for i, s := range k.Settings {
+		rr := corev1.ResourceRequirements{}
+		if s.Res == "" || s.Res == "requests" || s.Res == "both" {
+			rr.Requests = corev1.ResourceList{corev1.ResourceCPU: resource.MustParse(fmt.Sprintf("%dm", 101+i))}
+		}
+		if s.Res == "limits" || s.Res == "both" {
+			rr.Limits = corev1.ResourceList{corev1.ResourceMemory: resource.MustParse(fmt.Sprintf("%dMi", 101+i))}
+		}
 		obj := &edsv1.ExtendedDaemonsetSetting{ObjectMeta: metav1.ObjectMeta{Namespace: s.NS, Name: s.Name, CreationTimestamp: metav1.NewTime(base.Add(time.Duration(s.CreatedAt) * time.Second))},
-			Spec: edsv1.ExtendedDaemonsetSettingSpec{NodeSelector: c18Selector(s.Selector), Containers: []edsv1.ExtendedDaemonsetSettingContainerSpec{{Name: "agent", Resources: corev1.ResourceRequirements{Requests: corev1.ResourceList{corev1.ResourceCPU: resource.MustParse("123m")}}}}}}
+			Spec: edsv1.ExtendedDaemonsetSettingSpec{NodeSelector: c18Selector(s.Selector), Containers: []edsv1.ExtendedDaemonsetSettingContainerSpec{{Name: "agent", Resources: rr}}}}
 		if s.Ref != "nil" {
 			obj.Spec.Reference = &autoscalingv1.CrossVersionObjectReference{Kind: "ExtendedDaemonset", Name: s.Ref}
 		}
@@ -250,7 +260,84 @@ func runC18(k c18Case) (vs []mon.V, err error) {
 	}
 	return false
 	}
+	// ---- only valid settings influence pods; at most one per node. The replica set of "foo" syncs until quiet and
+	// every daemon pod that exists is judged (after a change of the verdicts, pods created under the old ones
+	// must have been replaced)
+	var prep *Prep
+	rsName := ""
+	syncPods := func(phase string) (stop bool) {
+		saved := c.ListOrder
+		c.ListOrder = nil
+		defer func() { c.ListOrder = saved }()
+		if len(k.Nodes) == 0 {
+			return false
+		}
+		if prep == nil {
+			st := edsv1.ExtendedDaemonSetSpecStrategy{}
+			hundred := int32(250)
+			st.RollingUpdate.MaxParallelPodCreation = &hundred
+			five := intstrOf(10)
+			st.RollingUpdate.SlowStartAdditiveIncrease = &five
+			st.RollingUpdate.MaxUnavailable = gen.ParseIntOrPercent("100%")
+			prep = prepare(c, "ns1", "foo", st, nil, "A")
+			rsName = prep.RS['A']
+		}
+		for round := 0; round < 6; round++ {
+			c.Advance(time.Minute)
+			r := c.Reconcile(sim.ActorERS, "ns1", rsName)
+			if r.Panic != nil {
+				add("C18/no-panic/"+panicSiteOf(r.Stack), fmt.Sprintf("replica-set reconcile panicked: %v", r.Panic))
+				return true
+			}
+			c.KubeletProgress()
+			writes := 0
+			for _, call := range r.Calls {
+				if call.Kind == "Pod" && call.Write {
+					writes++
+				}
+			}
+			if writes == 0 && round > 0 {
+				break
+			}
+		}
+		for _, pod := range c.Pods() {
+			if pod.Namespace != "ns1" || pod.Labels[oracle.LabelEDSName] != "foo" || pod.DeletionTimestamp != nil {
+				continue
+			}
+			name, ns := pod.Labels[oracle.LabelSettingName], pod.Labels[oracle.LabelSettingNS]
+			nodeLabels := map[string]string{}
+			if n := c.Node(oracle.NodeOf(pod)); n != nil {
+				nodeLabels = n.Labels
+			}
+			if name == "" {
+				if rr := pod.Spec.Containers[0].Resources; rr.Requests != nil || rr.Limits != nil {
+					add("C18/pods/resources-without-setting-label"+phase, fmt.Sprintf("pod on %s has setting resources %v but no setting label", oracle.NodeOf(pod), rr))
+				}
+				continue
+			}
+			var s *c18Setting
+			for i := range k.Settings {
+				if k.Settings[i].Name == name && k.Settings[i].NS == ns {
+					s = &k.Settings[i]
+				}
+			}
+			switch {
+			case s == nil:
+				add("C18/pods/unknown-setting"+phase, fmt.Sprintf("pod on %s carries setting %s/%s which does not exist", oracle.NodeOf(pod), ns, name))
+			case !isValid(*s):
+				add("C18/pods/invalid-setting-applied"+phase, fmt.Sprintf("pod on %s carries setting %s whose status is %q", oracle.NodeOf(pod), name, status[s.NS+"/"+s.Name].Status))
+			case s.NS != "ns1" || s.Ref != "foo":
+				add("C18/pods/foreign-setting-applied"+phase, fmt.Sprintf("pod on %s carries setting %s/%s which references %q", oracle.NodeOf(pod), s.NS, name, s.Ref))
+			case !matches(*s, nodeLabels):
+				add("C18/pods/setting-does-not-match-node"+phase, fmt.Sprintf("pod on %s (labels %v) carries setting %s (selector %s)", oracle.NodeOf(pod), nodeLabels, name, s.Selector))
+			}
+		}
+		return len(vs) > 0
+	}
 	if judge() {
+		return vs, nil
+	}
+	if len(vs) == 0 && syncPods("") {
 		return vs, nil
 	}
 	if len(vs) == 0 && len(k.Remove) > 0 {
@@ -286,56 +373,8 @@ func runC18(k c18Case) (vs []mon.V, err error) {
 		for i := range vs {
 			vs[i].Sig += "/after-removal"
 		}
-	}
-	c.ListOrder = nil
-	if len(vs) > 0 || len(k.Nodes) == 0 {
-		return vs, nil
-	}
-	// ---- only valid settings influence pods; at most one per node
-	st := edsv1.ExtendedDaemonSetSpecStrategy{}
-	hundred := int32(250)
-	st.RollingUpdate.MaxParallelPodCreation = &hundred
-	five := intstrOf(10)
-	st.RollingUpdate.SlowStartAdditiveIncrease = &five
-	p := prepare(c, "ns1", "foo", st, nil, "A")
-	rsName := p.RS['A']
-	c.Advance(time.Minute)
-	r := c.Reconcile(sim.ActorERS, "ns1", rsName)
-	if r.Panic != nil {
-		add("C18/no-panic/"+panicSiteOf(r.Stack), fmt.Sprintf("replica-set reconcile panicked: %v", r.Panic))
-		return vs, nil
-	}
-	for _, call := range r.Calls {
-		pod, ok := call.Obj.(*corev1.Pod)
-		if !ok || call.Verb != "create" {
-			continue
-		}
-		name, ns := pod.Labels[oracle.LabelSettingName], pod.Labels[oracle.LabelSettingNS]
-		nodeLabels := map[string]string{}
-		if n := c.Node(oracle.NodeOf(pod)); n != nil {
-			nodeLabels = n.Labels
-		}
-		if name == "" {
-			if pod.Spec.Containers[0].Resources.Requests != nil {
-				add("C18/pods/resources-without-setting-label", fmt.Sprintf("pod on %s has setting resources but no setting label", oracle.NodeOf(pod)))
-			}
-			continue
-		}
-		var s *c18Setting
-		for i := range k.Settings {
-			if k.Settings[i].Name == name && k.Settings[i].NS == ns {
-				s = &k.Settings[i]
-			}
-		}
-		switch {
-		case s == nil:
-			add("C18/pods/unknown-setting", fmt.Sprintf("pod on %s carries setting %s/%s which does not exist", oracle.NodeOf(pod), ns, name))
-		case !isValid(*s):
-			add("C18/pods/invalid-setting-applied", fmt.Sprintf("pod on %s carries setting %s whose status is %q", oracle.NodeOf(pod), name, status[s.NS+"/"+s.Name].Status))
-		case s.NS != "ns1" || s.Ref != "foo":
-			add("C18/pods/foreign-setting-applied", fmt.Sprintf("pod on %s carries setting %s/%s which references %q", oracle.NodeOf(pod), s.NS, name, s.Ref))
-		case !matches(*s, nodeLabels):
-			add("C18/pods/setting-does-not-match-node", fmt.Sprintf("pod on %s (labels %v) carries setting %s (selector %s)", oracle.NodeOf(pod), nodeLabels, name, s.Selector))
+		if len(vs) == 0 && syncPods("/after-removal") {
+			return vs, nil
 		}
 	}
 	return vs, nil
